@@ -176,6 +176,8 @@ func (server *SugarDB) handleCommand(ctx context.Context, message []byte, conn *
 	if !server.isInCluster() || !synchronize {
 		res, err := handler(server.getHandlerFuncParams(ctx, cmd, conn))
 		if err != nil {
+			// The command is over: a state copy (snapshot, AOF rewrite) must not wait for it for ever.
+			server.stateMutationInProgress.Store(false)
 			return nil, err
 		}
 
